@@ -189,6 +189,27 @@ func C13(ctx *core.Ctx) int {
 			progs = append(progs, p)
 		}
 	}
+	// MetaData entries that refer to other entries, in chains of one to three steps (whatever is resolved by walking
+	// a map of entries meets the deep ones before or after the entries they refer to)
+	progs = append(progs, attributePrograms()...)
+	{
+		var es []*dsl.MetaEntry
+		add := func(base *dsl.MetaEntry, names ...string) {
+			es = append(es, base)
+			prev := base.Name
+			for _, n := range names {
+				es = append(es, &dsl.MetaEntry{Name: n, Kind: dsl.MetaRef, Ref: prev, Doc: "refers to " + prev})
+				prev = n
+			}
+		}
+		add(&dsl.MetaEntry{Name: "Amount", Kind: dsl.Scalar, Type: "u64", Doc: "amount"}, "Price", "LimitPrice", "StopPrice")
+		add(&dsl.MetaEntry{Name: "Sym", Kind: dsl.FixStr, Type: "char", N: 4, Doc: "symbol"}, "Sym2", "Sym3")
+		add(&dsl.MetaEntry{Name: "Txt", Kind: dsl.DynStr, Type: "string", Doc: "text"}, "Txt2", "Txt3")
+		p := &dsl.Program{Name: "META/reference-chains", Meta: []*dsl.MetaBlock{{Name: "Dict", Entries: es}},
+			Packets: []*dsl.Packet{dsl.Root("Msg", dsl.Mr("StopPrice", "A"), dsl.Mr("Sym3", "B"), dsl.Mr("Txt3", "C"), dsl.Mr("LimitPrice", "D"), dsl.Rep(dsl.Mr("Price", "E")))}}
+		p.Opts = dsl.TargetOpts("gmetachains")
+		progs = append(progs, p)
+	}
 	if ctx.Replay != "" {
 		var r struct {
 			Replay struct {
@@ -266,7 +287,7 @@ func C13(ctx *core.Ctx) int {
 	unowned := unownedSources(ctx)
 	core.Parallel(len(progs), func(i int) {
 		p := progs[i]
-		if !ctx.Thorough() && len(unowned) == 0 && !(strings.HasPrefix(p.Name, "P5/") || strings.HasPrefix(p.Name, "P6/") || strings.HasPrefix(p.Name, "P4/") || i%7 == 0) {
+		if !ctx.Thorough() && len(unowned) == 0 && !(strings.HasPrefix(p.Name, "P5/") || strings.HasPrefix(p.Name, "P6/") || strings.HasPrefix(p.Name, "P4/") || strings.HasPrefix(p.Name, "META/") || strings.HasPrefix(p.Name, "ATTR/") || i%7 == 0) {
 			return
 		}
 		text := p.Text()
